@@ -1,7 +1,7 @@
 import TracklibVerif.Model.Simplify
 /-! The freedom the statement of C16 leaves to Visvalingam: **which of several equally small triangles goes first**.
 
-`visvalingam` (algo/simplification.py) asks `Operator.ARGMIN` for the fix to eliminate; ARGMIN (`val < minimum`, strict) answers
+`visvalingam` (algo/simplification.py) asks `Operator.ARGMIN` for the fix to eliminate; ARGMIN (`val < minimum`, strict, once an index is recorded) answers
 the *first* of several equal minima. The property only says: a sub-sequence of the input observations in their order, with the
 first and the last one. An implementation that eliminates another of the equally small triangles (the last one, a random one)
 is as good; since the areas of the neighbours are recomputed after every removal, it can end with *other* observations.
@@ -9,7 +9,7 @@ is as good; since the areas of the neighbours are recomputed after every removal
 This file models that freedom (core Lean, executable, scalar-polymorphic):
 * `vwBody` — the body of the `while` loop after the test, for an arbitrary index (`removeObs(id)` and the two guarded updates);
 * `tieIds` — the indices an ARGMIN with another tie-break may answer: its own answer and, when a minimum was found (the entry
-  there is a number below the initial minimum `big`), every index whose entry is `==` to it;
+  there is a number below the initial minimum `big` or, since b728412, equal to it), every index whose entry is `==` to it;
 * `vwNext` — the states one pass may lead to (`[]`: the loop stops, by `break` or because two observations remain);
 * `VReach` — reachability by such passes; `VwAnyResult` — the results of all runs;
 * `vwAllLevels` / `visvalingamAll` — the executable enumeration the driver runs (level by level, states with the same observations
@@ -35,13 +35,13 @@ def isTie (col : List (Option α)) (v : α) (j : Nat) : Bool :=
   | _ => false
 
 /-- the indices an ARGMIN with another tie-break may answer: ARGMIN's own answer `id`, and — when the entry there is a number
-below the initial minimum, i.e. when a minimum was found at all — every other index whose entry equals it. (When no entry is
-below the initial minimum ARGMIN answers its default `0`: nothing is tied, the list is `[0]`.) -/
+below the initial minimum or equal to it (b728412), i.e. when a minimum was found at all — every other index whose entry equals
+it. (When no entry is a number `<=` the initial minimum ARGMIN answers its default `0`: nothing is tied, the list is `[0]`.) -/
 def tieIds (big : α) (col : List (Option α)) : List Nat :=
   let id := argmin big col
   match col[id]? with
   | some (some v) =>
-    if v < big then id :: (List.range col.length).filter (fun j => j != id && isTie col v j) else [id]
+    if v < big ∨ (v == big) = true then id :: (List.range col.length).filter (fun j => j != id && isTie col v j) else [id]
   | _ => [id]
 
 /-- the states one pass of the loop may lead to when any of the equally small entries may be taken; `[]`: the loop stops
